@@ -508,13 +508,77 @@ fn real_threads(ctx: &Ctx, rounds: usize) {
     ctx.extra("real_threads", json!({"rounds": rounds, "events_observed_in_order": total_events, "note": "publisher threads finished every program while three subscribers never drained their channels"}));
 }
 
+/// "Nothing is delivered after its unsubscribe has completed" with a publisher running on another OS thread:
+/// a publisher loops over a large event with several slow subscribers ahead of the victim; the victim subscribes,
+/// unsubscribes, drains, waits for two more complete publishes and must find its channel empty. A stress (the
+/// overlap is the machine's), sound because the property promises it for every overlap.
+fn unsubscribe_race(ctx: &Ctx, rounds: usize) {
+    use std::sync::atomic::{AtomicBool, AtomicU64, Ordering};
+    if ctx.failed() {
+        return;
+    }
+    let hub = SubscriptionHub::new();
+    let stop = AtomicBool::new(false);
+    let published = AtomicU64::new(0);
+    let mut late: Option<String> = None;
+    let mut keep = Vec::new();
+    for _ in 0..8 {
+        let (tx, rx) = mpsc::channel::<String>(1);
+        block_on_thread(hub.subscribe("stats", tx));
+        keep.push(rx);
+    }
+    let blob: Value = json!({"links": (0..300).map(|i| json!({"ip": format!("10.0.{}.{}", i / 250, i % 250), "window": 20000 + i, "in_flight": i, "weak": false, "label": "x".repeat(40)})).collect::<Vec<_>>()});
+    std::thread::scope(|s| {
+        {
+            let hub = hub.clone();
+            let (stop, published) = (&stop, &published);
+            let blob = blob.clone();
+            s.spawn(move || {
+                while !stop.load(Ordering::Relaxed) {
+                    block_on_thread(hub.publish("stats", blob.clone()));
+                    published.fetch_add(1, Ordering::Release);
+                }
+            });
+        }
+        for r in 0..rounds {
+            let (tx, mut rx) = mpsc::channel::<String>(64);
+            let id = block_on_thread(hub.subscribe("stats", tx));
+            // let a publish or two reach it
+            let p0 = published.load(Ordering::Acquire);
+            while published.load(Ordering::Acquire) < p0 + 1 {
+                std::hint::spin_loop();
+            }
+            let removed = block_on_thread(hub.unsubscribe(&id));
+            while rx.try_recv().is_ok() {}
+            let p1 = published.load(Ordering::Acquire);
+            while published.load(Ordering::Acquire) < p1 + 2 {
+                std::hint::spin_loop();
+            }
+            if let Ok(line) = rx.try_recv() {
+                late = Some(format!("round {r}: unsubscribe({id}) returned {removed}; two complete publishes later the channel held an event of {} bytes", line.len()));
+                break;
+            }
+        }
+        stop.store(true, Ordering::Relaxed);
+    });
+    drop(keep);
+    ctx.extra("unsubscribe_race", json!({"rounds": rounds, "publishes": published.load(Ordering::Relaxed), "late_deliveries": late.is_some()}));
+    if let Some(l) = late {
+        ctx.report_violation("unsubscribe-race", &crate::rt::Violation { sig: "threads-event-after-unsubscribe".into(), msg: l }, json!({"stress": true}));
+    }
+}
+
 pub fn run(ctx: &Ctx) -> &'static str {
     ctx.assume("hub futures are polled by hand with a no-op waker: a publish must become Ready within 3 polls while nothing else runs, so waiting on a full or closed subscriber shows up as a pending future");
     ctx.assume("no task suspends while holding the hub lock, so on one thread interleavings at await points are interleavings of whole operations; lock contention between OS threads is only sampled by the real-thread tier (thorough)");
     ctx.assume("delivery itself is not promised (full channels drop): order, at-most-once, topic, own id, nothing after unsubscribe, pruning and non-blocking publish are asserted; delivered events are counted so a vacuous pass is visible");
     for (file, body) in ctx.replay_files() {
         if !ctx.replay_case::<Case, _>("interleavings", &file, &body, check) {
-            eprintln!("replay {}: unknown part", file.display());
+            if body["part"].as_str() == Some("unsubscribe-race") {
+                unsubscribe_race(ctx, 5_000);
+            } else {
+                eprintln!("replay {}: unknown part", file.display());
+            }
         }
     }
     if ctx.replay.is_some() {
@@ -531,6 +595,7 @@ pub fn run(ctx: &Ctx) -> &'static str {
     if ctx.tier == Tier::Thorough && !ctx.failed() {
         real_threads(ctx, 6);
     }
+    unsubscribe_race(ctx, ctx.tier.pick(1_500, 20_000));
     crate::props::e2e::run(ctx, crate::props::e2e::Phase::Subscription, ctx.tier.pick(1, 2));
     "exploration"
 }
